@@ -288,6 +288,15 @@ theorem blocks_length (p : Str) (L : List Block) (b : Block) :
     (p ++ blocksText (L ++ [b])).length = (p ++ blocksText L).length + b.text.length := by
   simp [blocksText_append, blocksText, Nat.add_assoc]
 
+/-- a match that ends at the end of the text: the text ends with `]` -/
+theorem lastHit_end_bracket {s : Str} {h : Hit} (hr : lastHit false [] none s = some h) (he : h.rest = []) :
+    s.getLast? = some ']' := by
+  obtain ⟨hs, -⟩ := lastHit_some hr
+  rw [hs, he]
+  have : h.pre ++ h.blk.text ++ [] = (h.pre ++ '[' :: (h.blk.kw.text ++ h.blk.value)) ++ [']'] := by simp [Block.text]
+  rw [this, List.getLast?_append]
+  simp
+
 /-! ## 2. the loop -/
 
 /-- the blocks read from the right, each condition put at the front of its list — what the loop does on `p ++ blocks` -/
